@@ -80,7 +80,8 @@ def make_cfgs(tier):
                 if rep % 4 == 3:
                     box = [[v, v + loguni(rnd, 1e-6, 1e6)] for v in [rnd.uniform(-1e3, 1e3) for _ in range(D)]]
                 n = rnd.choice([100, 100, 128, 150]) if tier == "quick" else rnd.choice([100, 150, 256, 400])
-                T = n if rnd.random() < 0.75 else rnd.randint(1, n)
+                u = rnd.random()
+                T = n if u < 0.6 else (rnd.randint(1, n) if u < 0.8 else rnd.randint(1, 12))     # also runs stopped in the very first phase
                 prm = draw_prm(rnd, algo, n)
                 if algo == "VROOM" and A.arity(kind, K, D) != 2:
                     # outside VROOM's documented scope (binary children); the constructor builds
@@ -98,6 +99,14 @@ def make_cfgs(tier):
         ("POO", {"rhomax": 0.5, "base": "T_HOO"}, 100, 100), ("POO", {"rhomax": 0.84, "base": "HCT"}, 100, 100),
         ("DOO", {"delta_kind": "pow2"}, 100, 100), ("StoSOO", {"k": 1, "h_max": 100}, 100, 100), ("SOO", {"h_max": 100}, 100, 100),
     ]
+    # runs that stop inside the first phase of the schedule, for every base learner
+    for base in ("T_HOO", "HCT", "VHCT"):
+        for T in (1, 2, rnd.randint(3, 30)):
+            corners.append(("GPO", {"rhomax": 0.9, "base": base}, rnd.choice([100, 1000]), T))
+            corners.append(("POO", {"rhomax": 0.9, "base": base}, 100, T))
+    for algo in A.ALGO_NAMES:
+        if algo not in ("GPO", "POO"):
+            corners.append((algo, {"h_max": 9} if algo == "VROOM" else {}, 100, rnd.choice([1, 1, 2, 3])))
     for (algo, prm, n, T) in corners:
         i += 1
         cfgs.append({"id": i, "algo": algo, "kind": "bin", "K": 2, "D": 1, "box": [[0.0, 1.0]], "n": n, "T": T, "prm": prm, "pattern": "noisy", "seed": rnd.randrange(1 << 30), "timeout": 30})
